@@ -9,43 +9,101 @@ CHECKS = {
     "C01": dict(
         text="Runner-level Lean model (Model/Proto = unittest 3.12.1 protocol, Model/Result = TestResult, Model/Runner = layer loop, resume, children) tied to the code by running the real runner (CLI, real children) on generated test worlds whose hooks and tests write a pid-tagged trace; every process is compared event by event with the model on this property's projection, and the property's clauses are monitored on the real traces/output. Projection/monitor: layer setUp/tearDown/test events: stack exactness, setUp/tearDown guards, all torn down, frozen after NotImplementedError.",
         note='hooks that re-enter the runner, MemoryError/KeyboardInterrupt/EndRun and -D are not modelled; Lean theorems for the invariant are being added (see evidence.obligations)',
-        technique="Lean 4 executable model + differential correspondence on generated test worlds + trace monitors (theorems in progress)",
+        technique="Lean 4 theorems on the runner-level model (unittest protocol, TestResult, layer loop) + differential correspondence on generated test worlds + trace monitors",
         design="§5 C01"),
     "C02": dict(
         text="Runner-level Lean model (Model/Proto = unittest 3.12.1 protocol, Model/Result = TestResult, Model/Runner = layer loop, resume, children) tied to the code by running the real runner (CLI, real children) on generated test worlds whose hooks and tests write a pid-tagged trace; every process is compared event by event with the model on this property's projection, and the property's clauses are monitored on the real traces/output. Projection/monitor: exit status iff something went wrong (trace truth), incl. children that die by os._exit/SIGKILL/SIGSEGV in any phase, non-spoofing fd-2 noise.",
         note='OS process death and pipe EOF are sampled, not proved; header-spoofing fd-2 noise is KNOWN-FINDING D10 (C07)',
-        technique="Lean 4 executable model + differential correspondence on generated test worlds + trace monitors (theorems in progress)",
+        technique="Lean 4 theorems on the runner-level model (unittest protocol, TestResult, layer loop) + differential correspondence on generated test worlds + trace monitors",
         design="§5 C02"),
     "C03": dict(
         text="Runner-level Lean model (Model/Proto = unittest 3.12.1 protocol, Model/Result = TestResult, Model/Runner = layer loop, resume, children) tied to the code by running the real runner (CLI, real children) on generated test worlds whose hooks and tests write a pid-tagged trace; every process is compared event by event with the model on this property's projection, and the property's clauses are monitored on the real traces/output. Projection/monitor: selected tests executed exactly --repeat times in one process, --list-tests lists the same set in the same order without running code, all modes agree.",
         note='selection itself is C08/C09; shuffle order is taken from the real listing (C11)',
-        technique="Lean 4 executable model + differential correspondence on generated test worlds + trace monitors (theorems in progress)",
+        technique="Lean 4 theorems on the runner-level model (unittest protocol, TestResult, layer loop) + differential correspondence on generated test worlds + trace monitors",
         design="§5 C03"),
     "C04": dict(
         text="Runner-level Lean model (Model/Proto = unittest 3.12.1 protocol, Model/Result = TestResult, Model/Runner = layer loop, resume, children) tied to the code by running the real runner (CLI, real children) on generated test worlds whose hooks and tests write a pid-tagged trace; every process is compared event by event with the model on this property's projection, and the property's clauses are monitored on the real traces/output. Projection/monitor: no runner traceback, summaries printed, layers torn down, other tests still run for raising tests/layers in every phase, with/without --buffer.",
         note='exception classes outside Exception in layer hooks are outside the quantifier',
-        technique="Lean 4 executable model + differential correspondence on generated test worlds + trace monitors (theorems in progress)",
+        technique="Lean 4 theorems on the runner-level model (unittest protocol, TestResult, layer loop) + differential correspondence on generated test worlds + trace monitors",
         design="§5 C04"),
     "C05": dict(
         text="Runner-level Lean model (Model/Proto = unittest 3.12.1 protocol, Model/Result = TestResult, Model/Runner = layer loop, resume, children) tied to the code by running the real runner (CLI, real children) on generated test worlds whose hooks and tests write a pid-tagged trace; every process is compared event by event with the model on this property's projection, and the property's clauses are monitored on the real traces/output. Projection/monitor: testSetUp/testTearDown bracket every test window: bases first, mirrored, balanced, incl. decorator-skipped tests; Model/Proto validated against plain unittest.",
         note='unittest protocol = CPython 3.12.1; raising per-test hooks are C18',
-        technique="Lean 4 executable model + differential correspondence on generated test worlds + trace monitors (theorems in progress)",
+        technique="Lean 4 theorems on the runner-level model (unittest protocol, TestResult, layer loop) + differential correspondence on generated test worlds + trace monitors",
         design="§5 C05"),
     "C12": dict(
         text="Runner-level Lean model (Model/Proto = unittest 3.12.1 protocol, Model/Result = TestResult, Model/Runner = layer loop, resume, children) tied to the code by running the real runner (CLI, real children) on generated test worlds whose hooks and tests write a pid-tagged trace; every process is compared event by event with the model on this property's projection, and the property's clauses are monitored on the real traces/output. Projection/monitor: 'Ran'/'Total' numbers and the failure/error name lists vs the truth computed from the trace.",
         note='KNOWN-FINDINGs D4 (skipped of children) and D5 (--repeat total)',
-        technique="Lean 4 executable model + differential correspondence on generated test worlds + trace monitors (theorems in progress)",
+        technique="Lean 4 theorems on the runner-level model (unittest protocol, TestResult, layer loop) + differential correspondence on generated test worlds + trace monitors",
         design="§5 C12"),
     "C13": dict(
         text="Runner-level Lean model (Model/Proto = unittest 3.12.1 protocol, Model/Result = TestResult, Model/Runner = layer loop, resume, children) tied to the code by running the real runner (CLI, real children) on generated test worlds whose hooks and tests write a pid-tagged trace; every process is compared event by event with the model on this property's projection, and the property's clauses are monitored on the real traces/output. Projection/monitor: token attribution under --buffer (quiet when ok, shown when failing, never in another test's report) and stream identity seen by layer hooks.",
         note="output after a failing test's last result event is raw inside its window",
-        technique="Lean 4 executable model + differential correspondence on generated test worlds + trace monitors (theorems in progress)",
+        technique="Lean 4 theorems on the runner-level model (unittest protocol, TestResult, layer loop) + differential correspondence on generated test worlds + trace monitors",
         design="§5 C13"),
     "C16": dict(
         text="Runner-level Lean model (Model/Proto = unittest 3.12.1 protocol, Model/Result = TestResult, Model/Runner = layer loop, resume, children) tied to the code by running the real runner (CLI, real children) on generated test worlds whose hooks and tests write a pid-tagged trace; every process is compared event by event with the model on this property's projection, and the property's clauses are monitored on the real traces/output. Projection/monitor: no test start after the first bad outcome in a process, no layer set-up/child after it in sequential runs, clean-up and verdict.",
         note='under -j N only the per-process clause is claimed',
-        technique="Lean 4 executable model + differential correspondence on generated test worlds + trace monitors (theorems in progress)",
+        technique="Lean 4 theorems on the runner-level model (unittest protocol, TestResult, layer loop) + differential correspondence on generated test worlds + trace monitors",
         design="§5 C16"),
+    "C06": dict(
+        text="resume_tests as a labelled transition system (parent loop passes, child output lines, done/dead events in any "
+             "order). Theorems for every schedule, k and N: never more than N running (not even transiently), the start "
+             "loop fills min(N, running+ready) slots, printed output is always the complete blocks of children 0..cur-1 "
+             "in layer order, a pass prints every leading done child. Tied to the real resume_tests and the real result "
+             "collectors by a fake spawn whose completion order is scripted (all k! orders for small k).",
+        note="OS scheduling, reaping of children and the 10 ms polling are runtime; equality of outcomes with the "
+             "sequential run is covered by the -j N world runs of C02/C03/C12",
+        technique="Lean 4 invariants over a transition system + correspondence with the real scheduler loop",
+        design="§5 C06"),
+    "C14": dict(
+        text="Lean model of find_test_files/find_suites on directory trees with abstract regex predicates. Theorems for "
+             "all trees, predicates and path lists: yielded paths = inductive spec (matching files in directories reached "
+             "through identifier, non-ignored names), no file twice for overlapping/repeated paths, independence of the "
+             "enumeration order of files and of sub-directories, import only through the --module gate. Tied to the real "
+             "code on temp trees created in shuffled order; imports observed through module top-level code.",
+        note="--package/-s and symlinks are not modelled; independence of enumeration order is proved per directory "
+             "level (files, sub-directories), not as one statement over a tree-permutation relation",
+        technique="Lean 4 theorems on hand-written model + differential correspondence on real directory trees",
+        design="§5 C14"),
+    "C15": dict(
+        text="Lean model of remove_stale_bytecode on directory trees. Theorem for all trees, ignore sets and search "
+             "paths: a path is deleted iff it is an orphan (inductive spec: compiled suffix, no same-named .py beside it, "
+             "directory reached without __pycache__/ignored components); nothing is deleted with -k/--usecompiled. Tied "
+             "to the real function and to --list-tests CLI runs by complete file-system snapshots before/after.",
+        note="symlinked directories are not modelled; suffix table regenerated from the source",
+        technique="Lean 4 exact characterisation theorem + snapshot-diff correspondence",
+        design="§5 C15"),
+    "C17": dict(
+        text="Lean model of _record, the name parsers (unittest, subtest, StartUpFailure), xml_safe and the ElementTree "
+             "serializer (escaping, char references, indent). Theorems for every history and every string: the rendered "
+             "file is a well-formed element of the XML grammar with only XML Chars (declarative grammar), each event is "
+             "filed once under its own suite/class/name, suite attributes equal element counts. Tied to the real wrapper "
+             "char-for-char; every real file is parsed with expat and ElementTree.",
+        note="grammar subset = what the serializer emits; doctest/manuel name parsers are not modelled; file names "
+             "derive from class names (identifiers)",
+        technique="Lean 4 theorems on serializer model + char-for-char correspondence + strict XML parsers as oracle",
+        design="§5 C17"),
+    "C18": dict(
+        text="Lean model of the feature bracket of Runner.run on an abstract global state (gc threshold/debug, traceback "
+             "functions, trace/profile hooks, sys.settrace, warning filters, std streams). Theorem: for every subset of "
+             "the state-changing options and every test phase that only touches warning filters, the state after equals "
+             "the state before (guards: no pre-installed trace/profile hook). The reversed/finally loop shape is "
+             "regenerated from the source. Tied to in-process runs of the real runner (fresh worker per case) with "
+             "snapshots before/after for option subsets x endings incl. KeyboardInterrupt and raising per-test hooks.",
+        note="feature set-up failures (before the try) are outside the statement; pre-installed trace hook is "
+             "KNOWN-FINDING D21; -D (post-mortem) is not exercised",
+        technique="Lean 4 theorems on bracket model + generated shape facts + snapshot correspondence",
+        design="§5 C18"),
+    "C19": dict(
+        text="Lean model of the snapshot/difference leak check with explicit thread idents. Theorem for every history of "
+             "thread starts/ends and tests without ident reuse into a snapshot: the report equals the threads started "
+             "during the test, alive at its end and not ignored; a leaked thread is never reported for a later test; "
+             "the reuse witness is proved. Tied to real runs whose tests start real threads (threading and _thread) and "
+             "log their idents.",
+        note="thread-exit timing is runtime (finished threads are waited for); ident reuse is KNOWN-FINDING D12",
+        technique="Lean 4 invariant proof over histories + correspondence with real threads",
+        design="§5 C19"),
     "C07": dict(
         text="Byte-level Lean model of the child's report writer and the parent's stderr parser (split at \\n, "
              "bytes.split, Python int() grammar, header search, completeness test, UTF-8 validity). Theorems for all "
